@@ -30,7 +30,12 @@ import (
 //   scripted per routine run (run k uses the k-th triple; beyond the script Done()=true).
 //   Observation: D<b> I<id>:<b> U<b> R<maxChunks>:<num>:<size> ... E
 //
-// Peer leecher with the real ticker:  T <parallel> <nruns> (<done> <susp> <mask>)* ; c <id> ; w ; ...
+// Peer leecher with the real ticker:  T <parallel> <nruns> (<done> <susp> <mask>)* ; c <id> ; w ; x ; ...
+//   x = Terminate() called by the harness goroutine; the token X is logged when it has returned.
+//   A Done() that answers true takes 1.2ms, so that the ticker has fired when the loop comes
+//   back to select: on a tree without the d.done guard in routine() the terminated leecher then
+//   runs routine() again with probability 1/2; the history is repeated up to 6 times and the
+//   first log with a callback after D1 is reported.
 //   RecheckInterval = 500us, `w` sleeps 1.2ms so that ticker runs interleave with the chunk runs.
 //   The interleaving is the runtime's, so this mode is TRACE VALIDATION: every chunk carries its
 //   op number, IsProcessed logs it (I<id>#<op>:<b>), the driver reads the sequence of routine
@@ -237,7 +242,7 @@ type c18Chunk struct {
 	id uint64
 }
 
-func c18RunTicker(header []string, ops [][]string) []string {
+func c18RunTickerOnce(header []string, ops [][]string) []string {
 	par, _ := strconv.Atoi(header[1])
 	nruns, _ := strconv.Atoi(header[2])
 	type ans struct {
@@ -271,6 +276,11 @@ func c18RunTicker(header []string, ops [][]string) []string {
 			run++
 			a := cur()
 			obs = append(obs, "D"+vu.B(a.done))
+			if a.done {
+				mu.Unlock()
+				time.Sleep(1200 * time.Microsecond)
+				mu.Lock()
+			}
 			return a.done
 		},
 		IsProcessed: func(id interface{}) bool {
@@ -313,16 +323,61 @@ func c18RunTicker(header []string, ops [][]string) []string {
 		case "w":
 			time.Sleep(1200 * time.Microsecond)
 			vu.Stat("ticker_op_w")
+		case "x":
+			d.Terminate()
+			mu.Lock()
+			obs = append(obs, "X")
+			mu.Unlock()
+			vu.Stat("ticker_op_x")
 		default:
 			panic("bad op " + op[0])
 		}
 	}
-	time.Sleep(600 * time.Microsecond)
+	time.Sleep(1500 * time.Microsecond)
 	d.Stop()
 	mu.Lock()
 	defer mu.Unlock()
 	vu.StatN("ticker_runs", run+1)
 	return append(obs, "E")
+}
+
+
+// c18AfterStop tells whether the log has a callback after the leecher was told to stop
+func c18AfterStop(obs []string) bool {
+	stopped := false
+	for _, t := range obs {
+		if t == "E" {
+			break
+		}
+		if stopped && t != "X" {
+			return true
+		}
+		if t == "D1" || t == "X" {
+			stopped = true
+		}
+	}
+	return false
+}
+
+func c18RunTicker(header []string, ops [][]string) []string {
+	var obs []string
+	for attempt := 0; attempt < 6; attempt++ {
+		obs = c18RunTickerOnce(header, ops)
+		if c18AfterStop(obs) {
+			vu.Stat("ticker_callback_after_stop")
+			break
+		}
+		stops := false
+		for _, t := range obs {
+			if t == "D1" || t == "X" {
+				stops = true
+			}
+		}
+		if !stops {
+			break
+		}
+	}
+	return obs
 }
 
 func c18Split(input []string) (header []string, ops [][]string) {
@@ -432,9 +487,9 @@ func c18GenTicker(r *rand.Rand, emit func(...string)) {
 	par := 1 + r.Intn(4)
 	nruns := 64
 	in := []string{"T", strconv.Itoa(par), strconv.Itoa(nruns)}
-	done := 0 // the application's Done() is monotone: once done it stays done
 	for i := 0; i < nruns; i++ {
-		if r.Intn(25) == 0 {
+		done := 0 // Done() need not be monotone
+		if r.Intn(20) == 0 {
 			done = 1
 		}
 		susp := 0
@@ -453,10 +508,17 @@ func c18GenTicker(r *rand.Rand, emit func(...string)) {
 		in = append(in, strconv.Itoa(done), strconv.Itoa(susp), strconv.FormatUint(mask, 10))
 	}
 	nc := 1 + r.Intn(2*par)
+	xat := -1
+	if r.Intn(5) == 0 {
+		xat = r.Intn(nc)
+	}
 	for i := 0; i < nc; i++ {
 		in = append(in, ";", "c", strconv.Itoa(r.Intn(8)))
 		if r.Intn(2) == 0 {
 			in = append(in, ";", "w")
+		}
+		if i == xat {
+			in = append(in, ";", "x", ";", "w")
 		}
 	}
 	emit(in...)
@@ -465,6 +527,8 @@ func c18GenTicker(r *rand.Rand, emit func(...string)) {
 func c18Gen(r *rand.Rand, n int, tier string, emit func(...string)) {
 	// the known failing history of the pinned tree first (register, tick, unregister)
 	emit("B", ";", "r", "1", ";", "t", "0", "0", ";", "u", "1", "0")
+	// ... and of the peer leecher without the d.done guard: done at the first run, not done later
+	emit("T", "1", "4", "1", "0", "0", "0", "0", "0", "0", "0", "0", "0", "0", "0", ";", "c", "1", ";", "w", ";", "w")
 	for i := 0; i < n; i++ {
 		if i%2 == 0 {
 			c18GenBase(r, emit)
